@@ -52,6 +52,18 @@ def setFields (t : Tree) (g : Fields → Fields) : Tree :=
   | node f ks => node (g f) ks
 
 mutual
+/-- structural equality test (used by the driver; `Tree` has no derived `DecidableEq`) -/
+def beq : Tree → Tree → Bool
+  | leaf n f, leaf m g => n == m && f == g
+  | node f ks, node g ls => f == g && beqL ks ls
+  | _, _ => false
+def beqL : List Tree → List Tree → Bool
+  | [], [] => true
+  | a :: as, b :: bs => beq a b && beqL as bs
+  | _, _ => false
+end
+
+mutual
 /-- all tokens below `t`, in storage order (`unordered_terminals`) -/
 def leaves : Tree → List Tree
   | leaf n f => [leaf n f]
